@@ -4,7 +4,9 @@ import (
 	"fmt"
 	"math"
 	"math/big"
+	"sort"
 
+	"pipelined.dev/signal"
 	"verifharness/core"
 	"verifharness/dyn"
 )
@@ -54,6 +56,9 @@ func runC09(c *core.Ctx) {
 		return
 	}
 	tasks := fixedTasks(fixedToFloat, !c.Quick(), 16)
+	if c.Mine(len(tasks) + 1) {
+		c09Chain(c)
+	}
 	for ti, t := range tasks {
 		if !c.Mine(ti) {
 			continue
@@ -260,8 +265,121 @@ func runC09(c *core.Ctx) {
 	c.Floor("level_lowest_checked", 22)
 	c.Floor("level_highest_checked", 22)
 	c.Floor("round_trips_exact_claim", 100000)
+	c.Floor("chain_round_trips_through_the_same_buffer_object", 1000)
 	c.R.Exhaustive["8-and-16-bit-sources"] = true
 	if !c.Quick() {
 		c.R.Exhaustive["32-bit-sources"] = true
+	}
+}
+
+// c09Chain reuses ONE floating-point buffer as the destination of conversions
+// from every fixed-point source type in turn (ascending bit depth, then
+// descending, with shorter and longer sources alternating) and hands that very
+// buffer object - not a copy of its samples - to the matching floating-to-fixed
+// conversion. What the property says about a conversion holds whatever the
+// destination was used for before.
+func c09Chain(c *core.Ctx) {
+	const n = 2048
+	for _, fname := range []string{"float64", "float32"} {
+		var convs []*dyn.ConvOp
+		for _, cv := range dyn.Convs {
+			if fixedToFloat(cv) && cv.D.Name == fname {
+				convs = append(convs, cv)
+			}
+		}
+		sort.SliceStable(convs, func(i, j int) bool { return convs[i].S.Bits < convs[j].S.Bits })
+		order := append([]*dyn.ConvOp(nil), convs...)
+		for i := len(convs) - 1; i >= 0; i-- {
+			order = append(order, convs[i])
+		}
+		if len(order) == 0 {
+			continue
+		}
+		f32 := fname == "float32"
+		F := order[0].D.Alloc(signal.Allocator{Channels: 1, Length: n, Capacity: n})
+		out := make([]uint64, n)
+		rt := make([]uint64, n)
+		for step, cv := range order {
+			st := cv.S.TypeInfo
+			b := st.Bits
+			name := cv.Name()
+			caseID := fmt.Sprintf("chain/%s/%d", fname, step)
+			amps := ampList(b, uint64(step)+c.Seed, 600)
+			if len(amps) > n {
+				amps = amps[:n]
+			}
+			if step%2 == 0 {
+				// a shorter source first, the longer one of the next step after it;
+				// the three reference levels stay in
+				short := append([]int64(nil), amps[:len(amps)/3]...)
+				amps = mergeSorted(short, []int64{minAmp(b), 0, maxAmp(b)})
+			}
+			in := make([]uint64, len(amps))
+			for i, a := range amps {
+				in[i] = rawOfAmp(st, a)
+			}
+			src := cv.S.Alloc(signal.Allocator{Channels: 1, Length: len(in), Capacity: len(in)})
+			cv.S.Fill(src, in)
+			d := map[string]any{"fn": name, "float_buffer": "one " + fname + " buffer reused by every step", "step": step, "samples": len(in)}
+			if p, msg := core.Guard(func() { cv.Call(src, F) }); p {
+				c.Violate(name+"|panic", caseID, "the conversion into a reused destination panicked: "+msg, d)
+				return
+			}
+			if F.Len() != n {
+				c.Violate(name+"|panic", caseID, fmt.Sprintf("(no panic, but) the conversion changed the length of its destination: %d -> %d samples", n, F.Len()), d)
+				return
+			}
+			cv.D.Drain(F, out)
+			inv := inverseConv(cv)
+			rtExact := b <= 32 && !f32
+			rtStep := f32 && b <= 16
+			var back dyn.Buf
+			if inv != nil && (rtExact || rtStep) {
+				back = cv.S.Alloc(signal.Allocator{Channels: 1, Length: len(in), Capacity: len(in)})
+				if p, msg := core.Guard(func() { inv.Call(F, back) }); p {
+					c.Violate(name+"|panic", caseID, inv.Name()+" from the reused buffer panicked: "+msg, d)
+					return
+				}
+				cv.S.Drain(back, rt[:len(in)])
+			}
+			c.Eval(int64(len(in)))
+			c.Obs("chain_conversions_into_one_reused_float_buffer", 1)
+			var prevR float64
+			var prevA int64
+			for i, raw := range in {
+				a := amp(st, raw)
+				r := math.Float64frombits(out[i])
+				dd := map[string]any{"fn": name, "step": step, "source_amplitude": a, "result": dyn.FloatVal(r), "float_buffer": "reused"}
+				if !(r >= -1 && r <= 1) {
+					c.Violate(name+"|range", caseID, fmt.Sprintf("amplitude %d -> %v outside [-1,1] (destination reused from earlier conversions)", a, r), dd)
+				}
+				if (a == minAmp(b) && r != -1) || (a == 0 && r != 0) || (a == maxAmp(b) && r != 1) {
+					c.Violate(name+"|level-reused-destination", caseID, fmt.Sprintf("amplitude %d -> %v in a destination reused from earlier conversions", a, r), dd)
+				}
+				if i > 0 && a > prevA && r < prevR {
+					c.Violate(name+"|order", caseID, fmt.Sprintf("amplitude %d -> %v but the lower amplitude %d -> %v (destination reused)", a, r, prevA, prevR), dd)
+				}
+				if !c09AccuracyExact(r, a, b, f32) {
+					c.Violate(name+"|accuracy", caseID, fmt.Sprintf("amplitude %d -> %v, more than one quantisation step away (destination reused)", a, r), dd)
+				}
+				if back != nil {
+					ba := amp(st, rt[i])
+					c.Obs("chain_round_trips_through_the_same_buffer_object", 1)
+					if rtExact && rt[i] != raw {
+						// the same classes (and inputs) as in the scan above
+						kind := "roundtrip-other"
+						if ba == a-1 {
+							kind = "roundtrip-returns-code-minus-1"
+						} else if ba == a+1 {
+							kind = "roundtrip-returns-code-plus-1"
+						}
+						c.Violate(fmt.Sprintf("%s|%s|%d", name, kind, raw), caseID, fmt.Sprintf("code %d -> %v -> %s -> code %d, the float buffer (used by %d earlier conversions) handed on as it is", raw, r, inv.Name(), rt[i], step), dd)
+					} else if rtStep && (ba < a-1 || ba > a+1) {
+						c.Violate(name+"|roundtrip-float32", caseID, fmt.Sprintf("amplitude %d -> %v -> %s -> amplitude %d, the float buffer (used by %d earlier conversions) handed on as it is", a, r, inv.Name(), ba, step), dd)
+					}
+				}
+				prevA, prevR = a, r
+			}
+		}
 	}
 }
